@@ -93,15 +93,15 @@ ObjOk(r) ==
          /\ r.res = B01(Operable(r.nodes, r.hs, r.ps))
          /\ r.res2 = B01(Operable2(r.nodes[1], r.hs, r.ps))
     [] r.op = "objCopy" ->
-         /\ NodeKey(r.src[1]) = <<0, 0>> /\ r.src[1].keep = r.keep /\ Operable(r.src, r.hs, r.ps)      \* "Объект src работоспособен"
-         /\ r.dst = r.src /\ r.dstimg = r.srcimg
+         /\ NodeKey(r.src[1]) = r.sat /\ r.src[1].keep = r.keep /\ Operable(r.src, r.hs, r.ps)      \* "Объект src работоспособен"
+         /\ r.dst = CopyResult(r.src, r.dat) /\ r.dstimg = r.srcimg
          /\ (Has(r, "src2") => r.src2 = r.src /\ r.src2img = r.srcimg)
     [] r.op = "objAppend" ->
-         /\ NodeKey(r.d[1]) = <<0, 0>> /\ NodeKey(r.s[1]) = <<0, 0>>
+         /\ NodeKey(r.d[1]) = r.dat /\ NodeKey(r.s[1]) = r.sat
          /\ Operable(r.d, r.hs, r.ps) /\ Operable(r.s, r.hs, r.ps) /\ r.i < r.d[1].oc
          /\ {r.d2[k] : k \in 1..Len(r.d2)} = AppendResult(r.d, r.s, r.i)
          /\ Len(r.d2) = Cardinality(AppendResult(r.d, r.s, r.i))
-         /\ NodeKey(r.d2[1]) = <<0, 0>>
+         /\ NodeKey(r.d2[1]) = r.dat
          /\ r.d2img = r.dimg \o r.simg
          /\ (Has(r, "s2") => r.s2 = r.s /\ r.s2img = r.simg)
 
